@@ -196,7 +196,7 @@ func init() {
 			"answers of the concurrent part must not depend on order: the mutation appears at most once per scenario"},
 		Budget: func(tier string) time.Duration {
 			if tier == "quick" {
-				return 60 * time.Second
+				return 120 * time.Second
 			}
 			return 10 * time.Minute
 		},
